@@ -213,3 +213,27 @@ harness! {
         }
     }
 }
+
+harness! {
+    /// kind=complete tier=quick bound="none: zero-sized elements, every slice length 0..=usize::MAX and every index pair (lengths compared; a zero-sized element has no address)"
+    fn c02_zst_any_len(s) {
+        // a slice of zero-sized elements may be longer than isize::MAX: the pointer-offset cast `start as isize` wraps there
+        static BIG: [(); usize::MAX] = [(); usize::MAX];
+        let len = s.usize();
+        let sl: &[()] = &BIG[..len];
+        let i = s.usize();
+        let j = s.usize();
+        let olen = |o: Option<&[()]>| match o { Some(x) => x.len() as u128, None => u128::MAX };
+        chk!(s, olen(slice::get_from(sl, i)) == olen(sl.get(i..)), "C02.zst.get_from.eq_std");
+        chk!(s, olen(slice::get_up_to(sl, i)) == olen(sl.get(..i)), "C02.zst.get_up_to.eq_std");
+        chk!(s, olen(slice::get_range(sl, i, j)) == olen(sl.get(i..j)), "C02.zst.get_range.eq_std");
+        chk!(s, slice::slice_from(sl, i).len() == (if i <= len { len - i } else { 0 }), "C02.zst.slice_from.std_or_empty");
+        chk!(s, slice::slice_up_to(sl, i).len() == (if i <= len { i } else { len }), "C02.zst.slice_up_to.std_or_whole");
+        let e = if j < len { j } else { len };
+        chk!(s, slice::slice_range(sl, i, j).len() == (if i <= e { e - i } else { 0 }), "C02.zst.slice_range.std_or_clamped");
+        let (a, b) = slice::split_at(sl, i);
+        chk!(s, if i <= len { a.len() == i && b.len() == len - i } else { a.len() == len && b.len() == 0 }, "C02.zst.split_at.std_or_whole_empty");
+        cov!(s, len == usize::MAX && i > isize::MAX as usize && i <= len, "C02.cover.zst_index_beyond_isize_max");
+        cov!(s, len > isize::MAX as usize && i < j && j <= len, "C02.cover.zst_huge_range");
+    }
+}
